@@ -94,6 +94,12 @@ orc_arm64_reg_name (int reg, OrcArm64RegBits bits)
 void
 orc_arm_emit (OrcCompiler *compiler, orc_uint32 insn)
 {
+  /* the code buffer (orc_compiler_compile_program) holds 64 KiB */
+  if (compiler->codeptr - compiler->code > 65536 - 4) {
+    orc_compiler_error (compiler,
+        "program too large: the generated code does not fit in 65536 bytes");
+    return;
+  }
   ORC_WRITE_UINT32_LE (compiler->codeptr, insn);
   compiler->codeptr+=4;
 }
@@ -308,6 +314,11 @@ void
 orc_arm_do_fixups (OrcCompiler *compiler)
 {
   int i;
+
+  /* after an error (code buffer or fixup table full) the recorded positions
+   * need not lie inside the code buffer any more */
+  if (compiler->error) return;
+
   for(i=0;i<compiler->n_fixups;i++){
     unsigned char *label = compiler->labels[compiler->fixups[i].label];
     unsigned char *ptr = compiler->fixups[i].ptr;
